@@ -17,6 +17,7 @@ EXTRA_LABELS: List[Dict[str, Any]] = [
     {}, {"u": 1}, {"s": "txt", "f": 2.5}, {"b": True, "z": False}, {"by": b"\x00\xff", "n": -3},
     {"big": 2 ** 80, "e": ""}, {"uni": "ü∆", "fl": -0.0},
     {"timeout": 50}, {"timeout": 75.5, "u": 2}, {"timeout": "60"},  # labels the worker itself reads are user labels too
+    {"_tenant": "acme", "region": "eu"}, {"__trace": "t1", "X-Taskiq-origin": "edge", "_n": 7},  # names that look private
 ]
 
 
@@ -76,7 +77,7 @@ def gen_c11_spec(rng: random.Random) -> Dict[str, Any]:
         "cfg": {"A": rng.choice([1, 2, None]), "P": rng.choice([0, 1]), "propagate": rng.random() < 0.75},
         "client_sends": sends, "loopback": True, "msgs": [], "mws": mws,
         "retry": {"default_count": default_count, "default_label": default_label, "no_result_on_retry": nro,
-                  "pos": rng.choice([0, 1]), "subclass": rng.random() < 0.3},
+                  "pos": rng.choice([0, 1]), "subclass": rng.random() < 0.3, "positional": rng.random() < 0.3},
         "backend": {"lat": rng.choice([0, "y", 0.01]), "stock": rng.random() < 0.4},
         # the broker hands out acknowledgeable messages (an at-least-once broker re-delivers what is never acked)
         "loop_ackable": rng.random() < 0.5,
